@@ -89,8 +89,9 @@ Definition complete (by_pump : bool) (s : cl) (r : Z) : cl :=
       if h =? r then
         let s1 := set_q s t in
         let s2 := set_pend s1 (if pend s1 =? r then 0 else pend s1) in
-        if by_pump && (1 <=? readyC s2) then set_stuck (set_readyC s2 (readyC s2 + 1)) true
-        else set_readyC s2 (readyC s2 + 1)
+        (* the ready token only wakes the pump up: with one pending already nothing is added, and nobody waits for room
+           (before the repair of F18 / F9 the pump blocked itself here for good) *)
+        set_readyC s2 (if 1 <=? readyC s2 then readyC s2 else readyC s2 + 1)
       else s
   end.
 
@@ -174,7 +175,7 @@ Definition step (l : lab) (s : cl) : cl :=
         let s1 := emit (set_conn s true) (EReconn (now s)) in
         let s2 := set_paused s1 false in
         if negb (pend s2 =? 0) then set_timer s2 (TShort (now s2 + timeout s2)) (tok s2)
-        else set_readyC s2 (readyC s2 + 1)
+        else set_readyC s2 (if 1 <=? readyC s2 then readyC s2 else readyC s2 + 1)
       else s
   | NetFail b => set_failw s b
   | DirectComplete r => complete false s r
